@@ -61,10 +61,11 @@ type accKey struct {
 }
 
 type accRec struct {
-	tid   int
-	clock uint32
-	site  string
-	tname string
+	tid    int
+	clock  uint32
+	site   string
+	tname  string
+	atomic bool // performed by a sync/atomic operation: does not conflict with other atomic accesses
 }
 
 type accState struct {
@@ -121,6 +122,16 @@ func Access(obj interface{}, field string, write bool, site string) {
 	x.access(obj, field, write, site)
 }
 
+// AccessAtomic records an access performed by a sync/atomic operation on obj.field (the operation itself is
+// a scheduling point of its own): it races with plain accesses, never with other atomic ones.
+func AccessAtomic(obj interface{}, field string, write bool, site string) {
+	x := X
+	if x == nil || x.aborting {
+		return
+	}
+	x.accessA(obj, field, write, site, true)
+}
+
 // AccessNoYield is Access without the scheduling point.
 func AccessNoYield(obj interface{}, field string, write bool, site string) {
 	x := X
@@ -131,6 +142,10 @@ func AccessNoYield(obj interface{}, field string, write bool, site string) {
 }
 
 func (x *Exec) access(obj interface{}, field string, write bool, site string) {
+	x.accessA(obj, field, write, site, false)
+}
+
+func (x *Exec) accessA(obj interface{}, field string, write bool, site string, atomic bool) {
 	x.Accesses++
 	t := x.cur
 	k := accKey{obj, field}
@@ -139,13 +154,13 @@ func (x *Exec) access(obj interface{}, field string, write bool, site string) {
 		st = &accState{}
 		x.acc[k] = st
 	}
-	me := accRec{t.ID, t.vc.get(t.ID), site, t.Name}
-	if st.hasW && st.w.tid != t.ID && st.w.clock > t.vc.get(st.w.tid) {
+	me := accRec{t.ID, t.vc.get(t.ID), site, t.Name, atomic}
+	if st.hasW && st.w.tid != t.ID && st.w.clock > t.vc.get(st.w.tid) && !(atomic && st.w.atomic) {
 		x.race(field, st.w, true, me, write)
 	}
 	if write {
 		for _, r := range st.reads {
-			if r.tid != t.ID && r.clock > t.vc.get(r.tid) {
+			if r.tid != t.ID && r.clock > t.vc.get(r.tid) && !(atomic && r.atomic) {
 				x.race(field, r, false, me, true)
 			}
 		}
